@@ -19,8 +19,31 @@ Interpretation decisions
   * the error behaviour of the LEGACY codecs is not part of the statement: outcomes are recorded in
     the evidence (notes.legacy_bad_input_outcomes) but not judged.
   * non-integer "ids" (floats, None) are type errors, outside the statement.
+
+Second audit (input / history classes C-H of AUDIT2_PROMPT)
+  C  falsy values: id 0 / position 0 / the empty sequence in EVERY argument form (a 1-element ndarray holding id 0 is
+     falsy, a longer one has no truth value), "" and [] for the string form of encode (also the legacy one),
+     joined_tokens given as False explicitly, max_grid_size = 0 and corner_first_ndindex(0) (outside 1..50: Layer M).
+  D  does not apply (vocabularies are about square n x n coordinate sets; oblong (i, j) with i != j are the
+     coordinate tokens themselves, every one of which is checked position by position).
+  E  every encode / decode call gets the CALLER'S OWN object (list, int64 / int8 / ... ndarray, strided view), the
+     object is compared with a snapshot after the call (M:argument_modified) and overwritten in place BEFORE the
+     result is read; lists returned by corner_first_ndindex / token_arr / tokenizer_map of a legacy tokenizer are
+     cleared after use, and the next tokenizer / call in the same process must not notice.
+  F  legacy tokenizers built through other routes (TokenizationMode.to_legacy_tokenizer, load(serialize()),
+     dataclasses.replace of a tokenizer of another size whose cached vocabulary was already built, numpy-int
+     max_grid_size) and with the properties read in another order (tokenizer_map / encode before token_arr);
+     vocab_size / n_tokens / padding_token_index (Layer M: derived values the statement does not name); the static
+     vocabulary dumped again at the END of the run and through MazeTokenizerModular instances (default, from_legacy)
+     and VOCAB.values(); sequences with duplicated elements.
+  G  decode: list / tuple / range / int64, int32, int16, uint16, int8, uint8 ndarray / list of numpy ints /
+     non-contiguous view; encode: list / tuple / string (P), numpy string array and one-shot iterator (Layer M: not
+     a "str | list[str]").  One-shot iterators are NOT given to MazeTokenizerModular.decode: it is declared for a
+     Sequence and reads its argument twice (outside the quantifier "token sequences").
+  H  lengths 0, 1, 2 (also [0, 0]) x every form x joined / not joined x class / instance call.
 """
 import copy
+import dataclasses
 import json
 
 import numpy as np
@@ -95,48 +118,154 @@ def obs_static():
     VL, T2I, *_ = _lib()
     toks = _strs(VL)
     recs = [dict(kind="pos", pos=i, tok=t, idx=_int(_run(lambda: T2I.get(VL[i], -1))[1])) for i, t in enumerate(toks)]
-    recs.append(dict(kind="vocab", list=toks, t2i=_items(T2I)))
+    recs.append(obs_vocab("VOCAB_LIST"))
     return recs
+
+
+VOCAB_SRCS = ("VOCAB_LIST", "VOCAB_LIST@end", "constants", "VOCAB.values", "instance", "from_legacy")
+
+
+def obs_vocab(src):
+    """the whole static vocabulary as seen through one of its access paths (class F: the same list must come out of
+    every path, at the start and at the END of the run, after all the codec calls made in this process)"""
+    VL, T2I, _, MTM, TM, _ = _lib()
+    vsize = pad = -1
+    if src in ("VOCAB_LIST", "VOCAB_LIST@end"):
+        import maze_dataset
+
+        res, got = _run(lambda: (_strs(maze_dataset.VOCAB_LIST), _items(maze_dataset.VOCAB_TOKEN_TO_INDEX)))
+    elif src == "constants":
+        from maze_dataset import constants
+
+        res, got = _run(lambda: (_strs(constants.VOCAB_LIST), _items(constants.VOCAB_TOKEN_TO_INDEX)))
+    elif src == "VOCAB.values":
+        from maze_dataset import VOCAB
+
+        res, got = _run(lambda: (_strs(list(VOCAB.values())), _items(T2I)))
+        vsize = _int(_run(lambda: len(VOCAB))[1])
+    else:
+        m = _mtm(src)
+        res, got = _run(lambda: (_strs(m.token_arr), _items(m.tokenizer_map)))
+        vsize, pad = _int(_run(lambda: m.vocab_size)[1]), _int(_run(lambda: m.padding_token_index)[1])
+    lst, t2i = got if res == "ok" else (["<" + res + ">"], [])
+    return dict(kind="vocab", src=src, list=lst, t2i=t2i, vsize=-1 if vsize == BADINT else vsize, pad=-1 if pad == BADINT else pad)
+
+
+def _cf_call(cf, k, style):
+    """corner_first_ndindex(k) in one of four spellings (default ndim / explicit ndim / keywords / numpy int);
+    the returned list is converted and then CLEARED: it belongs to the caller, later calls must not notice"""
+    out = cf(k) if style == 0 else cf(k, 2) if style == 1 else cf(n=k, ndim=2) if style == 2 else cf(np.int64(k))
+    got = [_ints(c) for c in out]
+    _clobber(out, (0, 0))
+    if isinstance(out, list):
+        del out[:]
+    return got
 
 
 def obs_cf(m):
     cf = _lib()[5]
-    res, lists = _run(lambda: [[_ints(c) for c in cf(k)] for k in range(1, m + 1)])
+    res, lists = _run(lambda: [_cf_call(cf, k, (m + k) % 4) for k in range(1, m + 1)])
     return dict(kind="cf", m=m, res=res, lists=lists if res == "ok" else [])
 
 
-def _legacy(mode, n):
+def obs_cf0():
+    cf = _lib()[5]
+    res, out = _run(lambda: [_ints(c) for c in cf(0)])
+    return dict(kind="cf0", res=res, list=out if res == "ok" else [])
+
+
+ROUTES = ("ctor", "factory", "load", "npint", "replace")
+LEG_ENC_FORMS = ("list", "tuple")
+LEG_DEC_FORMS = ("list", "ndarray", "tuple", "int16", "npints")
+JOIN_MAX = 64  # string form of encode / joined form of decode for sequences up to this length
+
+
+def _legacy(mode, n, route="ctor"):
+    """a legacy tokenizer for (mode, max_grid_size = n), built through one of several routes (class F)"""
     _, _, MT, _, TM, _ = _lib()
+    if route == "factory":
+        return TM[mode].to_legacy_tokenizer(n)
+    if route == "load":
+        return MT.load(MT(tokenization_mode=TM[mode], max_grid_size=n).serialize())
+    if route == "npint":
+        return MT(tokenization_mode=TM(mode), max_grid_size=np.int64(n))
+    if route == "replace":
+        # a tokenizer of ANOTHER size whose cached vocabulary already exists; the copy must have its own
+        other = MT(tokenization_mode=TM[mode], max_grid_size=n + 1)
+        _ = other.token_arr, other.tokenizer_map, other.vocab_size
+        return dataclasses.replace(other, max_grid_size=n)
     return MT(tokenization_mode=TM[mode], max_grid_size=n)
 
 
+def _legacy_build(mode, n, route):
+    tk = _legacy(mode, n, route)
+    # the order in which the (cached) properties are first read must not matter
+    if route == "npint":
+        tk.encode([])
+        tk.decode([0])
+    if route == "replace":
+        _ = tk.vocab_size
+    if route in ("factory", "npint"):
+        tmap = tk.tokenizer_map
+        arr = tk.token_arr
+    else:
+        arr = tk.token_arr
+        tmap = tk.tokenizer_map
+    return tk, _strs(arr), _items(tmap)
+
+
+def _m1(v):
+    v = _int(v)
+    return -1 if v == BADINT else v
+
+
 def obs_legacy(args):
-    mode, n, seed, nseq, singles = args
-    res, got = _run(lambda: (lambda tk: (tk, _strs(tk.token_arr), _items(tk.tokenizer_map)))(_legacy(mode, n)))
+    mode, n, seed, nseq, singles = args[:5]
+    route = args[5] if len(args) > 5 else "ctor"
+    layer = "P" if 1 <= n <= NMAX else "M"  # max_grid_size = 0 is outside the statement's 1..50
+    res, got = _run(lambda: _legacy_build(mode, n, route))
     if res != "ok":
-        return dict(kind="legacy", mode=mode, n=n, seed=seed, res=res, arr=[], map=[], encs=[], decs=[], info={})
+        return dict(kind="legacy", mode=mode, n=n, seed=seed, route=route, layer=layer, res=res, arr=[], map=[], encs=[], decs=[], info={}, vsize=-1, ntok=-1, pad=-1)
     tk, arr, tmap = got
     rng = np.random.default_rng([seed, 14, MODES.index(mode), n])
     seqs = [list(range(len(arr))), list(range(len(arr) - 1, -1, -1))]
+    # shortest sequences with the falsy id 0 / a duplicated element / the last id (classes C, F, H)
+    seqs += [[0], [0, 0], [len(arr) - 1, 0]] if arr else [[], [], []]
     if singles:
         seqs += [[i] for i in range(len(arr))]
     for _ in range(nseq if arr else 0):
         seqs.append(_ints(rng.integers(0, len(arr), size=int(rng.integers(1, 41)))))
     seqs.append([])
     encs, decs = [], []
-    for ids in seqs:
+    for q, ids in enumerate(seqs):
+        ef = LEG_ENC_FORMS[(q + n) % len(LEG_ENC_FORMS)]
+        df = LEG_DEC_FORMS[(q + n + MODES.index(mode)) % len(LEG_DEC_FORMS)]
         toks = [arr[i] for i in ids]
-        r, out = _run(lambda: tk.encode(toks))
-        e = dict(toks=toks, res=r, ids=_ints(out) if r == "ok" else [], back_res="skip", back=[])
+        a = _toks_arg(toks, ef)
+        r, out = _run(lambda: tk.encode(a))
+        argmod = _changed(a, toks)
+        _clobber(a, "<PADDING>")
+        e = dict(toks=toks, form=ef, argmod=argmod, res=r, ids=_ints(out) if r == "ok" else [], sres="skip", sids=[], back_res="skip", back=[])
         if r == "ok":
             br, b = _run(lambda: tk.decode(out))
             e["back_res"], e["back"] = br, (_strs(b) if br == "ok" else [])
+            if len(toks) <= JOIN_MAX and all(t and t.split() == [t] for t in toks):
+                sres, sout = _run(lambda: tk.encode(" ".join(toks)))
+                e["sres"], e["sids"] = sres, (_ints(sout) if sres == "ok" else [])
         encs.append(e)
-        r, out = _run(lambda: tk.decode(ids))
-        d = dict(ids=ids, res=r, toks=_strs(out) if r == "ok" else [], back_res="skip", back=[])
+        a = _ids_arg(ids, df)
+        r, out = _run(lambda: tk.decode(a))
+        argmod = _changed(a, ids)
+        _clobber(a, 3)
+        d = dict(ids=ids, form=df, argmod=argmod, res=r, toks=_strs(out) if r == "ok" else [], jres="skip", joined="", back_res="skip", back=[])
         if r == "ok":
             br, b = _run(lambda: tk.encode(out))
             d["back_res"], d["back"] = br, (_ints(b) if br == "ok" else [])
+            if len(ids) <= JOIN_MAX:
+                a2 = _ids_arg(ids, df)
+                jres, j = _run(lambda: tk.decode(a2, joined_tokens=True))
+                d["jres"], d["joined"] = (jres, j) if jres == "ok" and isinstance(j, str) else ("ok_but_not_a_string" if jres == "ok" else jres, "")
+                d["argmod"] = argmod or _changed(a2, ids)
         decs.append(d)
     # recorded, not judged (the statement does not cover legacy error behaviour)
     info = dict(
@@ -144,19 +273,137 @@ def obs_legacy(args):
         id_eq_size=_run(lambda: tk.decode([len(arr)]))[0],
         id_minus_one=_run(lambda: tk.decode([-1]))[0],
     )
-    return dict(kind="legacy", mode=mode, n=n, seed=seed, res="ok", arr=arr, map=tmap, encs=encs, decs=decs, info=info)
+    vsize, ntok, pad = _m1(_run(lambda: tk.vocab_size)[1]), _m1(_run(lambda: tk.n_tokens)[1]), _m1(_run(lambda: tk.padding_token_index)[1])
+    # the returned list / dict belong to the caller: wreck them; tokenizers built later in this process must not notice
+    _run(lambda: (_clobber(tk.token_arr, "<clobbered>"), _clobber(tk.tokenizer_map, None)))
+    return dict(kind="legacy", mode=mode, n=n, seed=seed, route=route, layer=layer, res="ok", arr=arr, map=tmap, encs=encs, decs=decs, info=info, vsize=vsize, ntok=ntok, pad=pad)
+
+
+def _prefix_arr(k):
+    tk = _legacy("AOTP_UT_uniform", k, ROUTES[k % len(ROUTES)])
+    got = _strs(tk.token_arr)
+    _clobber(tk.token_arr, "<clobbered>")
+    return got
 
 
 def obs_legacy_prefix(m):
-    res, arrs = _run(lambda: [_strs(_legacy("AOTP_UT_uniform", k).token_arr) for k in range(1, m + 1)])
-    return dict(kind="legacy_prefix", mode="AOTP_UT_uniform", m=m, res=res, arrs=arrs if res == "ok" else [])
+    # sizes built in increasing order for even m, in decreasing order for odd m
+    order = list(range(1, m + 1)) if m % 2 == 0 else list(range(m, 0, -1))
+    res, arrs = _run(lambda: dict((k, _prefix_arr(k)) for k in order))
+    return dict(kind="legacy_prefix", mode="AOTP_UT_uniform", m=m, res=res, arrs=[arrs[k] for k in range(1, m + 1)] if res == "ok" else [])
 
 
-def obs_enc(toks, form="list"):
-    MTM = _lib()[3]
+# ---- argument forms (classes E / G): every call gets an object that belongs to the caller
+ENC_FORMS_P = ("list", "tuple")
+ENC_FORMS_M = ("strarray", "gen")  # not a "str | list[str]": judged as Layer M
+_DT = dict(ndarray=np.int64, int32=np.int32, int16=np.int16, uint16=np.uint16, int8=np.int8, uint8=np.uint8)
+DEC_FORMS = ("list", "ndarray", "tuple", "int16", "npints", "int32", "strided", "uint16", "int8", "uint8", "range")
+
+
+def _as_range(ids):
+    if not ids:
+        return range(0)
+    step = ids[1] - ids[0] if len(ids) > 1 else 1
+    if step == 0:
+        return None
+    r = range(ids[0], ids[0] + step * len(ids), step)
+    return r if list(r) == list(ids) else None
+
+
+def _fits(ids, form):
+    if form in _DT:
+        ii = np.iinfo(_DT[form])
+        return all(ii.min <= i <= ii.max for i in ids)
+    if form == "range":
+        return _as_range(ids) is not None
+    return True
+
+
+def _ids_arg(ids, form):
+    """the ids as the caller's own object of the given form"""
+    if form == "list":
+        return list(ids)
+    if form == "tuple":
+        return tuple(ids)
+    if form == "npints":
+        return [np.int64(i) for i in ids]
+    if form == "range":
+        return _as_range(ids)
+    if form == "strided":  # non-contiguous view; the gaps hold another (valid) id
+        base = np.ones(2 * len(ids) + 1, dtype=np.int64)
+        base[1::2] = ids
+        return base[1::2]
+    return np.array(ids, dtype=_DT[form])
+
+
+def _toks_arg(toks, form):
+    if form == "list":
+        return list(toks)
+    if form == "tuple":
+        return tuple(toks)
+    if form == "gen":
+        return iter(list(toks))
+    if form == "strarray":
+        return np.array(list(toks), dtype=str)
+    raise lib.MachineryError(f"unknown encode form {form}")
+
+
+def _changed(arg, orig):
+    """did the call modify the caller's object?  (immutable forms cannot change)"""
+    try:
+        if isinstance(arg, np.ndarray):
+            return arg.tolist() != list(orig)
+        if isinstance(arg, list):
+            if len(arg) != len(orig):
+                return True
+            for a, b in zip(arg, orig):
+                if isinstance(b, str):
+                    if not isinstance(a, str) or a != b:
+                        return True
+                elif _int(a) != b:
+                    return True
+            return False
+    except Exception:  # noqa: BLE001
+        return True
+    return False
+
+
+def _clobber(arg, val):
+    """overwrite the caller's object in place (before the result is read)"""
+    try:
+        if isinstance(arg, np.ndarray):
+            arg[...] = val
+            if arg.base is not None:
+                arg.base[...] = val
+        elif isinstance(arg, list):
+            arg[:] = [val] * (len(arg) + 1)
+        elif isinstance(arg, dict):
+            arg.clear()
+    except Exception:  # noqa: BLE001
+        pass
+
+
+_INST = {}
+
+
+def _mtm(via):
+    """MazeTokenizerModular itself (static call) or an instance (default / built from a legacy mode)"""
+    _, _, _, MTM, TM, _ = _lib()
+    if via == "class":
+        return MTM
+    if via not in _INST:
+        _INST[via] = MTM() if via == "instance" else MTM.from_legacy(TM.AOTP_UT_uniform)
+    return _INST[via]
+
+
+def obs_enc(toks, form="list", via="class"):
+    MTM = _mtm(via)
     toks = list(toks)
-    res, out = _run(lambda: MTM.encode(list(toks)))
-    r = dict(kind="enc", toks=toks, form=form, res=res, ids=_ints(out) if res == "ok" else [], sres="skip", sids=[], back_res="skip", back=[])
+    arg = _toks_arg(toks, form)
+    res, out = _run(lambda: MTM.encode(arg))
+    argmod = _changed(arg, toks)
+    _clobber(arg, "<PADDING>")  # a result that is (or shares memory with) the argument is now garbage
+    r = dict(kind="enc", toks=toks, form=form, via=via, layer="M" if form in ENC_FORMS_M else "P", argmod=argmod, res=res, ids=_ints(out) if res == "ok" else [], sres="skip", sids=[], back_res="skip", back=[])
     if all(t and t.split() == [t] for t in toks):
         sres, sout = _run(lambda: MTM.encode(" ".join(toks)))
         r["sres"], r["sids"] = sres, (_ints(sout) if sres == "ok" else [])
@@ -172,14 +419,23 @@ def _cls(ids):
     return "valid" if not (neg or big) else "negative_id" if not big else "too_large_id" if not neg else "negative_and_too_large"
 
 
-def obs_dec(ids, form="list"):
-    MTM = _lib()[3]
+def obs_dec(ids, form="list", via="class"):
+    MTM = _mtm(via)
     ids = [int(i) for i in ids]
-    arg = (lambda: np.array(ids, dtype=np.int64)) if form == "ndarray" else (lambda: tuple(ids)) if form == "tuple" else (lambda: list(ids))
-    res, out = _run(lambda: MTM.decode(arg()))
-    r = dict(kind="dec", ids=ids, form=form, cls=_cls(ids), res=res, toks=_strs(out) if res == "ok" else [], jres="skip", joined="", back_res="skip", back=[])
+    if not _fits(ids, form):
+        form = "list"
+    arg = lambda: _ids_arg(ids, form)  # noqa: E731
+    a = arg()
+    # joined_tokens=False given explicitly on the instance route (falsy option value, class C)
+    res, out = _run((lambda: MTM.decode(a, joined_tokens=False)) if via != "class" else (lambda: MTM.decode(a)))
+    argmod = _changed(a, ids)
+    _clobber(a, 3)
+    r = dict(kind="dec", ids=ids, form=form, via=via, layer="P", argmod=argmod, cls=_cls(ids), res=res, toks=_strs(out) if res == "ok" else [], jres="skip", joined="", back_res="skip", back=[])
     if res == "ok":
-        jres, j = _run(lambda: MTM.decode(arg(), joined_tokens=True))
+        a2 = arg()
+        jres, j = _run(lambda: MTM.decode(a2, joined_tokens=True))
+        r["argmod"] = argmod or _changed(a2, ids)
+        _clobber(a2, 3)
         r["jres"], r["joined"] = jres, (j if jres == "ok" and isinstance(j, str) else "")
         if jres == "ok" and not isinstance(j, str):
             r["jres"] = "ok_but_not_a_string"
@@ -212,9 +468,37 @@ def obs_codec_batch(args):
         else:
             ids = rng.integers(1596, V, size=ln)
         ids = [int(i) for i in ids]
-        form = ["list", "ndarray", "tuple"][k % 3]
+        # the argument form rotates independently of the id mix (k // 3); "range" / 8-bit forms fall back to a list
+        # when the ids do not fit (they are covered by obs_small)
+        form = DEC_FORMS[(k // 3) % 8]
         out.append(obs_dec(ids, form))
-        out.append(obs_enc([_tok(VL, i) for i in ids]))
+        eform = ("list", "tuple", "list", "tuple", "list", "strarray", "list", "gen")[(k // 3) % 8]
+        out.append(obs_enc([_tok(VL, i) for i in ids], eform))
+    return out
+
+
+SMALL_IDS = [[], [0], [1], [10], [19], [127], [128], [255], [256], [4095], [0, 0], [0, 1], [0, 4095], [4095, 0], [1, 0], [7, 7, 7, 7, 7], [0, 2, 4, 6], [130, 120, 110, 100]]
+
+
+def obs_small(thorough=False):
+    """shortest sequences (lengths 0, 1, 2; id 0; duplicated elements) x EVERY argument form x joined / not joined x
+    static call / instance call (classes C, G, H)"""
+    VL = _lib()[0]
+    out = []
+    for ids in SMALL_IDS:
+        for form in DEC_FORMS:
+            if _fits(ids, form):
+                out.append(obs_dec(ids, form))
+        toks = [_tok(VL, i) for i in ids]
+        for form in ENC_FORMS_P + ENC_FORMS_M:
+            out.append(obs_enc(toks, form))
+        for via in ("instance", "from_legacy"):
+            out.append(obs_dec(ids, "ndarray" if via == "instance" else "list", via))
+            out.append(obs_enc(toks, "list" if via == "instance" else "tuple", via))
+    # the whole vocabulary as a range / strided view / 16-bit array; as a tuple / string array
+    out += [obs_dec(list(range(V)), f) for f in (("range", "strided", "int16") + (("uint16", "npints", "int32", "tuple") if thorough else ()))]
+    out += [obs_dec(list(range(0, 256)), "uint8"), obs_dec(list(range(0, 128)), "int8"), obs_dec(list(range(127, -1, -1)), "int8")]
+    out += [obs_enc([_tok(VL, i) for i in range(V)], f) for f in (("tuple", "strarray") + (("gen",) if thorough else ()))]
     return out
 
 
@@ -228,9 +512,18 @@ def obs_bad(seed):
             base = [_tok(VL, int(i)) for i in rng.integers(0, V, size=int(rng.integers(1, 12)))]
             p = 0 if where == "first" else len(base) if where == "last" else len(base) // 2
             out.append(obs_enc(base[:p] + [t] + base[p:]))
+    for t in ("foo", "", "(50,0)", "<unk>"):
+        for form in ("tuple", "strarray", "gen"):
+            out.append(obs_enc(["(0,0)", t], form))
+            out.append(obs_enc([t], form))
+        out.append(obs_enc([t, "<PADDING>"], "list", "instance"))
     for b in BAD_IDS_NEG + BAD_IDS_BIG:
-        for form in ("list", "ndarray"):
-            out.append(obs_dec([b], form))
+        for form in ("list", "ndarray", "tuple", "npints", "int32", "int16", "uint16", "int8"):
+            if form in ("list", "ndarray") or _fits([b], form):
+                out.append(obs_dec([b], form))
+                if form not in ("list", "ndarray"):
+                    out.append(obs_dec([0, b], form))
+        out.append(obs_dec([b], "list", "instance"))
         for where in ("first", "mid", "last"):
             base = [int(i) for i in rng.integers(0, V, size=int(rng.integers(1, 12)))]
             p = 0 if where == "first" else len(base) if where == "last" else len(base) // 2
@@ -248,18 +541,20 @@ def reobserve(case):
         tok = _strs(VL)[p] if 0 <= p < len(VL) else ""
         return dict(kind="pos", pos=p, tok=tok, idx=_int(_run(lambda: T2I.get(VL[p], -1))[1]))
     if k == "vocab":
-        return obs_static()[-1]
+        return obs_vocab(case.get("src", "VOCAB_LIST"))
     if k == "cf":
         return obs_cf(case["m"])
+    if k == "cf0":
+        return obs_cf0()
     if k == "legacy":
-        nseq = max(0, len(case.get("encs", [])) - 3)
-        return obs_legacy((case["mode"], case["n"], case.get("seed", 0), nseq, False))
+        nseq = max(0, len(case.get("encs", [])) - 6)
+        return obs_legacy((case["mode"], case["n"], case.get("seed", 0), nseq, False, case.get("route", "ctor")))
     if k == "legacy_prefix":
         return obs_legacy_prefix(case["m"])
     if k == "enc":
-        return obs_enc(case["toks"], case.get("form", "list"))
+        return obs_enc(case["toks"], case.get("form", "list"), case.get("via", "class"))
     if k == "dec":
-        return obs_dec(case["ids"], case.get("form", "list"))
+        return obs_dec(case["ids"], case.get("form", "list"), case.get("via", "class"))
     raise lib.MachineryError(f"unknown case kind {k}")
 
 
@@ -267,11 +562,11 @@ def _case_of(x):
     """stored case: inputs + outcome, without the bulky dumps"""
     k = x["kind"]
     if k == "vocab":
-        return dict(kind=k, size=len(x["list"]), map_size=len(x["t2i"]))
+        return dict(kind=k, src=x.get("src", "VOCAB_LIST"), size=len(x["list"]), map_size=len(x["t2i"]), vsize=x.get("vsize", -1), pad=x.get("pad", -1))
     if k == "cf":
         return dict(kind=k, m=x["m"], res=x["res"], last=(x["lists"][-1][:60] if x["lists"] else []))
     if k == "legacy":
-        return dict(kind=k, mode=x["mode"], n=x["n"], seed=x.get("seed", 0), res=x["res"], arr=x["arr"][:40], encs=[0] * len(x["encs"]))
+        return dict(kind=k, mode=x["mode"], n=x["n"], seed=x.get("seed", 0), route=x.get("route", "ctor"), res=x["res"], arr=x["arr"][:40], encs=[0] * len(x["encs"]), vsize=x.get("vsize", -1), ntok=x.get("ntok", -1), pad=x.get("pad", -1))
     if k == "legacy_prefix":
         return dict(kind=k, mode=x["mode"], m=x["m"], res=x["res"])
     return {kk: vv for kk, vv in x.items() if kk != "id"}
@@ -296,9 +591,10 @@ def _ut(cells):
 def _legacy_rec(mode, n, arr, **kw):
     ids = list(range(len(arr)))
     r = dict(
-        kind="legacy", mode=mode, n=n, seed=0, res="ok", arr=list(arr), map=[[t, i] for i, t in enumerate(arr)],
-        encs=[dict(toks=list(arr), res="ok", ids=list(ids), back_res="ok", back=list(arr))],
-        decs=[dict(ids=list(ids), res="ok", toks=list(arr), back_res="ok", back=list(ids))], info={},
+        kind="legacy", mode=mode, n=n, seed=0, route="ctor", layer="P", res="ok", arr=list(arr), map=[[t, i] for i, t in enumerate(arr)],
+        encs=[dict(toks=list(arr), form="list", argmod=False, res="ok", ids=list(ids), sres="ok", sids=list(ids), back_res="ok", back=list(arr))],
+        decs=[dict(ids=list(ids), form="list", argmod=False, res="ok", toks=list(arr), jres="ok", joined=" ".join(arr), back_res="ok", back=list(ids))], info={},
+        vsize=len(arr), ntok=len(arr), pad=10,
     )
     r.update(kw)
     return r
@@ -325,12 +621,18 @@ def _canaries():
     add(dict(kind="pos", pos=4095, tok="(49,49)", idx=4094), "token_to_index_not_inverse")
     # whole list: synthetic distinct tokens (layout wrong on purpose; the named clause is what is tested)
     syn = ["t%d" % i for i in range(V)]
-    voc = dict(kind="vocab", list=syn, t2i=[[t, i] for i, t in enumerate(syn)])
+    syn[10] = "<PADDING>"
+    voc = dict(kind="vocab", src="VOCAB_LIST", list=syn, t2i=[[t, i] for i, t in enumerate(syn)], vsize=V, pad=10)
     add(voc, "vocab_differs_from_published_layout")
     add(voc, "vocab_duplicates", lambda c: c["list"].__setitem__(2000, c["list"][2001]))
     add(voc, "vocab_size_not_4096", lambda c: (c["list"].append("t4096"), c["t2i"].append(["t4096", 4096])))
     add(voc, "token_to_index_not_inverse", lambda c: c["t2i"].__setitem__(5, ["t5", 6]))
     add(voc, "token_to_index_not_inverse", lambda c: c["t2i"].pop())
+    add(voc, "M:vocab_size_differs", lambda c: c.update(vsize=V - 1))
+    add(voc, "M:padding_index_differs", lambda c: c.update(pad=0))
+    add(voc, "M:padding_index_differs", lambda c: c.update(pad=V))
+    add(dict(kind="cf0", res="ok", list=[[0, 0]]), "M:cf_zero_not_empty")
+    add(dict(kind="cf0", res="raise:ValueError", list=[]), "M:cf_zero_not_empty")
     # corner-first lists
     cf3 = dict(kind="cf", m=3, res="ok", lists=_CF)
     add(cf3, "cf_differs_from_corner_first_order", lambda c: swap(c["lists"][2], 6, 7))
@@ -351,6 +653,19 @@ def _canaries():
     add(ras, "legacy_encode_rejects_own_token", lambda c: c["encs"][0].update(res="raise:TokenError", ids=[], back_res="skip", back=[]))
     add(ras, "legacy_decode_rejects_own_id", lambda c: c["decs"][0].update(res="raise:TokenError", toks=[], back_res="skip", back=[]))
     add(ras, "legacy_vocabulary_raises", lambda c: c.update(res="raise:ValueError", arr=[], map=[], encs=[], decs=[]))
+    add(ras, "legacy_encode_of_joined_string_differs", lambda c: c["encs"][0]["sids"].__setitem__(0, 1))
+    add(ras, "legacy_encode_of_joined_string_differs", lambda c: c["encs"][0].update(sres="raise:TokenError", sids=[]))
+    add(ras, "legacy_decode_joined_differs", lambda c: c["decs"][0].update(joined=c["decs"][0]["joined"].replace(" ", "", 1)))
+    add(ras, "legacy_decode_joined_differs", lambda c: c["decs"][0].update(jres="ok_but_not_a_string", joined=""))
+    add(ras, "M:argument_modified", lambda c: c["encs"][0].update(argmod=True))
+    add(ras, "M:argument_modified", lambda c: c["decs"][0].update(argmod=True))
+    add(ras, "M:legacy_vocab_size_differs", lambda c: c.update(vsize=16))
+    add(ras, "M:legacy_vocab_size_differs", lambda c: c.update(ntok=14))
+    add(ras, "M:legacy_padding_index_differs", lambda c: c.update(pad=9))
+    # max_grid_size = 0 lies outside the statement: the same corruption is reported, but as Layer M
+    ras0 = _legacy_rec("AOTP_UT_rasterized", 0, _SPECIALS, layer="M")
+    add(ras0, "M:legacy_duplicates", lambda c: c["arr"].__setitem__(3, c["arr"][2]))
+    add(ras0, "M:legacy_not_row_major", lambda c: (c["arr"].append("(0,0)"), c["map"].append(["(0,0)", 11])))
     add(_legacy_rec("AOTP_CTT_indexed", 2, _SPECIALS + ["(", ",", ")", "0", "1", "2"]), "M:legacy_layout_differs")
     add(_legacy_rec("AOTP_UT_uniform", 3, _SPECIALS + _ut([[0, 0], [0, 1], [1, 0], [1, 1], [0, 2], [2, 0], [2, 1], [1, 2], [2, 2]])), "M:legacy_layout_differs")
     lp = dict(kind="legacy_prefix", mode="AOTP_UT_uniform", m=3, res="ok", arrs=[list(_SPECIALS) + _ut(c) for c in _CF])
@@ -359,26 +674,35 @@ def _canaries():
     add(lp, "legacy_vocabulary_raises", lambda c: c.update(res="raise:KeyError", arrs=[]))
     # modular codec
     toks, ids = ["(0,0)", "THEN", "<PADDING>", "-1", "STEP"], [1596, 17, 10, 703, 704]
-    enc = dict(kind="enc", toks=list(toks), form="list", res="ok", ids=list(ids), sres="ok", sids=list(ids), back_res="ok", back=list(toks))
+    enc = dict(kind="enc", toks=list(toks), form="list", via="class", layer="P", argmod=False, res="ok", ids=list(ids), sres="ok", sids=list(ids), back_res="ok", back=list(toks))
     add(enc, "encode_wrong_id", lambda c: c["ids"].__setitem__(1, 18))
     add(enc, "encode_wrong_id", lambda c: c["ids"].pop())
     add(enc, "decode_of_encode_not_identity", lambda c: c["back"].__setitem__(1, ":"))
     add(enc, "encode_of_joined_string_differs", lambda c: c["sids"].__setitem__(4, 705))
     add(enc, "encode_rejects_vocabulary_token", lambda c: c.update(res="raise:TokenError", ids=[], back_res="skip", back=[]))
-    unk = dict(kind="enc", toks=["(0,0)", "foo"], form="list", res="raise:TokenError", ids=[], sres="raise:TokenError", sids=[], back_res="skip", back=[])
+    unk = dict(kind="enc", toks=["(0,0)", "foo"], form="list", via="class", layer="P", argmod=False, res="raise:TokenError", ids=[], sres="raise:TokenError", sids=[], back_res="skip", back=[])
     add(unk, "unknown_token_no_token_error", lambda c: c.update(res="ok", ids=[1596, 19]))
     add(unk, "unknown_token_no_token_error", lambda c: c.update(res="raise:KeyError"))
     add(unk, "unknown_token_no_token_error", lambda c: c.update(toks=["(50,0)"], res="raise:ValueError"))
-    dec = dict(kind="dec", ids=list(ids), form="list", cls="valid", res="ok", toks=list(toks), jres="ok", joined=" ".join(toks), back_res="ok", back=list(ids))
+    dec = dict(kind="dec", ids=list(ids), form="list", via="class", layer="P", argmod=False, cls="valid", res="ok", toks=list(toks), jres="ok", joined=" ".join(toks), back_res="ok", back=list(ids))
     add(dec, "decode_wrong_token", lambda c: c["toks"].__setitem__(3, "-2"))
     add(dec, "encode_of_decode_not_identity", lambda c: c["back"].__setitem__(0, 1597))
     add(dec, "decode_joined_differs", lambda c: c.update(joined=c["joined"] + " "))
     add(dec, "decode_rejects_vocabulary_id", lambda c: c.update(res="raise:TokenError", toks=[], jres="skip", joined="", back_res="skip", back=[]))
-    bad = dict(kind="dec", ids=[5, 4096], form="list", cls="too_large_id", res="raise:TokenError", toks=[], jres="skip", joined="", back_res="skip", back=[])
+    bad = dict(kind="dec", ids=[5, 4096], form="list", via="class", layer="P", argmod=False, cls="too_large_id", res="raise:TokenError", toks=[], jres="skip", joined="", back_res="skip", back=[])
     add(bad, "too_large_id_no_token_error", lambda c: c.update(res="ok", toks=[";", "(49,49)"]))
     add(bad, "too_large_id_no_token_error", lambda c: c.update(res="raise:IndexError"))
     add(bad, "negative_id_no_token_error", lambda c: c.update(ids=[5, -4097], res="raise:IndexError"))
     add(bad, "negative_id_no_token_error", lambda c: c.update(ids=[-1], res="ok", toks=["(49,49)"]))
+    # second audit: aliasing / falsy / representation
+    add(enc, "M:argument_modified", lambda c: c.update(argmod=True))
+    add(dec, "M:argument_modified", lambda c: c.update(argmod=True))
+    add(enc, "encode_wrong_id", lambda c: c.update(ids=[BADINT] * 6))  # what a result that aliases the (overwritten) argument looks like
+    add(dec, "decode_wrong_token", lambda c: c.update(ids=[0], form="ndarray", toks=[], joined="<ADJLIST_START>", back=[]))  # 1-element array holding id 0 treated as "no ids"
+    add(dec, "decode_joined_differs", lambda c: c.update(ids=[], toks=[], joined=" ", back=[]))
+    add(enc, "encode_of_joined_string_differs", lambda c: c.update(toks=[], ids=[], sres="raise:TokenError", sids=[], back=[]))  # "" as the string form of []
+    add(enc, "M:encode_wrong_id", lambda c: (c.update(form="gen", layer="M"), c["ids"].__setitem__(1, 18)))
+    add(unk, "M:unknown_token_no_token_error", lambda c: c.update(form="strarray", layer="M", res="raise:KeyError"))
     return can
 
 
@@ -436,7 +760,11 @@ def main(chk: lib.Check) -> int:
         "cases = one per vocabulary position (4096), the whole list/map, corner_first_ndindex for every n<=50 (with all smaller n for the prefix "
         "clause), every legacy (mode, max_grid_size<=50) vocabulary with encode/decode over its own list, every legacy corner-first prefix pair, "
         "MazeTokenizerModular encode/decode on all 4096 singletons, the whole list, seeded random sequences (uniform ids, ids around block "
-        "boundaries, coordinate ids; list/ndarray/tuple inputs), unknown tokens and out-of-range ids alone and embedded; "
+        "boundaries, coordinate ids; list / tuple / range / int64, int32, int16, uint16, int8, uint8 ndarray / numpy-int list / strided view "
+        "inputs, each the caller's own object that is overwritten before the result is read), the shortest sequences (length 0, 1, 2, id 0, "
+        "duplicates) in every argument form, joined and not, by static and by instance call, unknown tokens and out-of-range ids alone and "
+        "embedded in several forms; legacy vocabularies rebuilt through 5 construction routes; the static vocabulary re-dumped at the end and "
+        "through instances; "
         "non-trivial = every case except codec sequences of length < 2 that are valid"
     )
     # ---- (A) design level
@@ -454,6 +782,7 @@ def main(chk: lib.Check) -> int:
         return chk.finish("the library under test could not be imported")
     recs = obs_static()
     recs += lib.pmap(obs_cf, list(range(1, NMAX + 1)), chunksize=2)
+    recs.append(obs_cf0())
     nseq = 40 if thorough else 12
     leg = lib.pmap(obs_legacy, [(m, n, chk.seed, nseq, thorough or n <= 12) for n in range(1, NMAX + 1) for m in MODES], chunksize=3)
     for x in leg:
@@ -461,10 +790,15 @@ def main(chk: lib.Check) -> int:
     recs += leg
     # the same vocabularies built in DECREASING size order inside each worker process (and once more in a scrambled order):
     # a vocabulary must not depend on which other vocabularies were built earlier in the process
-    desc = [(m, n, chk.seed + 1, 2, False) for n in range(NMAX, 0, -1) for m in MODES]
+    # second audit: these repeat builds go through the OTHER construction routes (factory, load(serialize()), numpy-int
+    # size, dataclasses.replace of a tokenizer of another size) and read the cached properties in another order; every
+    # observation ends by wrecking the returned token_arr / tokenizer_map, which later builds must not notice
+    desc = [(m, n, chk.seed + 1, 2, False, ROUTES[1 + (n + i) % 4]) for n in range(NMAX, 0, -1) for i, m in enumerate(MODES)]
     leg2 = lib.pmap(obs_legacy, desc, chunksize=len(desc) // 8 + 1)
-    scr = [(m, n, chk.seed + 2, 2, False) for n in [40, 3, 17, 2, 50, 7, 1, 23, 4, 12, 5, 33, 6, 9] for m in MODES]
-    leg2 += lib.pmap(obs_legacy, [scr], chunksize=1) if False else [obs_legacy(a) for a in scr]
+    scr = [(m, n, chk.seed + 2, 2, False, ROUTES[(n + 2 * i) % 5]) for n in [40, 3, 17, 2, 50, 7, 1, 23, 4, 12, 5, 33, 6, 9] for i, m in enumerate(MODES)]
+    leg2 += [obs_legacy(a) for a in scr]
+    # max_grid_size = 0 (falsy, outside 1..50: judged as Layer M)
+    leg2 += [obs_legacy((m, 0, chk.seed + 1, 2, True, r)) for m in MODES for r in ("ctor", "factory")]
     for x in leg2:
         x["seed"] = chk.seed + 1
     recs += leg2
@@ -482,8 +816,11 @@ def main(chk: lib.Check) -> int:
     step = 250
     for sub in lib.pmap(obs_codec_batch, [(chk.seed, k, min(k + step, nrand), 64) for k in range(0, nrand, step)]):
         codec += sub
+    codec += obs_small(thorough)
     bad = obs_bad(chk.seed)
     recs += codec + bad
+    # the static vocabulary once more, at the END of all calls made in this process and through its other access paths
+    recs += [obs_vocab(src) for src in VOCAB_SRCS[1:]]
 
     # evidence accounting
     legacy_info = {}
@@ -493,18 +830,30 @@ def main(chk: lib.Check) -> int:
             for kk, vv in x.get("info", {}).items():
                 legacy_info.setdefault(kk, {}).setdefault(vv, 0)
                 legacy_info[kk][vv] += 1
-            chk.count([k, x["mode"], x["n"]], True)
+            chk.count([k, x["mode"], x["n"], x.get("route", "ctor"), x.get("seed", 0)], True)
             chk.evaluations += len(x["encs"]) + len(x["decs"])
         elif k == "enc":
-            chk.count([k, x["toks"]], len(x["toks"]) >= 2 or x["res"] != "ok")
+            chk.count([k, x["toks"], x["form"], x["via"]], len(x["toks"]) >= 2 or x["res"] != "ok" or x["form"] != "list")
         elif k == "dec":
-            chk.count([k, x["ids"], x["form"]], len(x["ids"]) >= 2 or x["res"] != "ok" or x["cls"] != "valid")
+            chk.count([k, x["ids"], x["form"], x["via"]], len(x["ids"]) >= 2 or x["res"] != "ok" or x["cls"] != "valid" or x["form"] != "list")
         elif k == "pos":
             chk.count([k, x["pos"]], True)
         else:
-            chk.count([k, x.get("m", 0)], True)
+            chk.count([k, x.get("m", 0), x.get("src", "")], True)
     chk.notes["legacy_bad_input_outcomes"] = legacy_info
-    chk.notes["records_by_kind"] = {k: sum(1 for x in recs if x["kind"] == k) for k in ("pos", "vocab", "cf", "legacy", "legacy_prefix", "enc", "dec")}
+    chk.notes["records_by_kind"] = {k: sum(1 for x in recs if x["kind"] == k) for k in ("pos", "vocab", "cf", "cf0", "legacy", "legacy_prefix", "enc", "dec")}
+    byform = {}
+    for x in recs:
+        if x["kind"] in ("enc", "dec"):
+            key = x["kind"] + ":" + x["form"] + ("" if x["via"] == "class" else "@" + x["via"])
+            byform[key] = byform.get(key, 0) + 1
+    chk.notes["codec_records_by_argument_form"] = byform
+    chk.notes["legacy_records_by_route"] = {r: sum(1 for x in recs if x["kind"] == "legacy" and x.get("route") == r) for r in ROUTES}
+    chk.notes["argument_aliasing"] = (
+        "every encode / decode call receives the caller's own object; it is compared with a snapshot after the call (M:argument_modified) and "
+        "overwritten in place before the result is read; returned corner-first lists and legacy token_arr / tokenizer_map are wrecked after use"
+    )
+    chk.notes["outside_the_quantifier"] = "one-shot iterators are not given to MazeTokenizerModular.decode (declared for a Sequence, reads its argument twice); iterator / numpy-string-array arguments of encode, max_grid_size = 0 and corner_first_ndindex(0) are judged as Layer M"
     chk.notes["bad_input_records"] = len(bad)
     import maze_dataset
 
